@@ -49,7 +49,8 @@ pub fn generate(seed: u64, thorough: bool) -> Vec<String> {
         for _ in 0..len {
             text.push_str(pieces[rng.below(pieces.len())]);
         }
-        let k = rng.range(1, 3);
+        // k = 0 is what a grammar without any decision passes to TokenStream::new (finding F14)
+        let k = rng.range(0, 3);
         out.push(format!("toks14 {} {} {}", par_flags(&po), k, hex(&text)));
     }
     out
